@@ -161,6 +161,7 @@ def run(tier: str) -> int:
     samples, distinct = [], set()
     evaluations = 0
     t_budget = 110 if tier == "quick" else 2400
+    t_work0 = time.time()      # budgets count from here: the proof stage before depends on machine load
 
     def judge(prog, version, opts, expect_ok, what, extra=None, key_on_crash=None):
         nonlocal evaluations
@@ -193,7 +194,7 @@ def run(tier: str) -> int:
         if count_nodes(sk) >= 4:
             if r.random() > 0.02:
                 continue
-            if time.time() - rep.t0 > sk_budget:
+            if time.time() - t_work0 > sk_budget:
                 stats["skeletons:4-node sample cut by time budget"] += 1
                 continue
         nsk += 1
@@ -215,7 +216,7 @@ def run(tier: str) -> int:
     # ---- (b) random well-typed programs, model outcome class vs real outcome class
     nrand = 260 if tier == "quick" else 4000
     for i in range(nrand):
-        if time.time() - rep.t0 > t_budget:
+        if i >= 60 and time.time() - t_work0 > t_budget:
             rep.notes.append(f"time budget reached after {i} random programs")
             break
         mode = r.choice(["app", "sig"])
